@@ -258,6 +258,7 @@ class Simulation:
             self._events_processed = 0
             self._is_running = True
             self._event_heap.set_current_time(self._current_time)
+            self._event_heap.seed_event_counter()
 
             logger.info(
                 "Simulation starting at %r with %d event(s) in heap",
@@ -535,6 +536,7 @@ class Simulation:
             self._wall_start = _time.monotonic()
             self._is_running = True
             self._event_heap.set_current_time(self._current_time)
+            self._event_heap.seed_event_counter()
 
         with _active_sim_context(self._event_heap, self._clock):
             with _active_debugger_context(None):
